@@ -225,6 +225,31 @@ func c14Eviction(p *Prog, r *Report) {
 		r.Anchor("C14.R3", "collections.TTLMap / PriorityQueue", "not found")
 		return
 	}
+	// "the entry nearest to expiry" is the heap's root only while the heap order holds: every change of an
+	// item's priority (a store outside the initialisation of a new item) is followed, on every path, by
+	// heap.Fix / heap.Push re-establishing the order — an in-place overwrite leaves a later deadline above
+	// an earlier one and the wrong (recently refreshed, active) source is evicted
+	if item := p.Named("internal/holsterv4/collections", "PQItem"); item != nil {
+		nSt := 0
+		for _, st := range p.StoresToField(item, "Priority") {
+			if fa, ok := st.Addr.(*ssa.FieldAddr); ok {
+				if _, fresh := fa.X.(*ssa.Alloc); fresh {
+					continue
+				}
+			}
+			nSt++
+			fn := st.Parent()
+			r.Fn(FName(fn))
+			fix := NewEvents(p, func(in ssa.Instruction) bool {
+				return isStdCall(in, "container/heap", "Fix") || isStdCall(in, "container/heap", "Push")
+			})
+			ret := ReturnReachableAvoiding(fn, st, fix.Is, nil)
+			r.Paths++
+			r.Check(ret == nil, "C14.R3", "collections: a changed priority is re-heapified, in "+FName(fn), p.InstrPos(st), "every path from the store to a return passes heap.Fix / heap.Push",
+				"an item's priority is overwritten and a return is reachable without heap.Fix / heap.Push"+posOf(p, ret)+": the expiry heap loses its order, so at capacity a live, recently renewed source is evicted instead of the one nearest to expiry")
+		}
+		r.Floor("C14.R3", nSt, 1, "priority updates of queued items")
+	}
 	// roles: the insertion routine stores a new element into the elements map; "poppers" are the
 	// methods that take entries off the expiry heap (RemoveExpired: only expired ones; RemoveLastUsed: live ones)
 	var set *ssa.Function
